@@ -19,7 +19,8 @@ Open Scope char_scope.
 
 (* a srcset candidate / a token whose URL is a reference AST (None: some other text) *)
 Record hcand := HCand { hc_pre : bytes; hc_ref : ref; hc_rest : bytes }.
-Record htok := HTok { ht_fill : bytes; ht_q1 : bytes; ht_url : bytes; ht_q2 : bytes; ht_ref : option ref }.
+Record htok := HTok { ht_fill : bytes; ht_p1 : bytes; ht_q1 : bytes; ht_url : bytes; ht_q2 : bytes; ht_p2 : bytes;
+                      ht_ref : option ref }.
 
 Inductive plant :=
 | PlAttr (el : N) (name : bytes) (r : ref)            (* element el has attribute name = render r *)
@@ -105,7 +106,7 @@ Definition agree (exact : bool) (model obs : list bytes) : bool :=
 
 (* ---------- the plants really are in the DOM *)
 Definition hcand_s (h : hcand) : scand := SCand (hc_pre h) (render_ref (hc_ref h)) (hc_rest h).
-Definition htok_c (t : htok) : ctok := CTok (ht_fill t) (ht_q1 t) (ht_url t).
+Definition htok_c (t : htok) : ctok := CTok (ht_fill t) (ht_p1 t) (ht_q1 t) (ht_url t) (ht_p2 t).
 Definition htok_s (t : htok) : stok := STok (ht_fill t) (ht_q1 t) (ht_url t) (ht_q2 t).
 Definition htok_ok (t : htok) : bool :=
   match ht_ref t with Some r => bytes_eqb (ht_url t) (render_ref r) | None => true end.
@@ -120,6 +121,7 @@ Definition plant_consistent (c : hcase) (p : plant) : bool :=
     && bytes_eqb (text_of (elem_at c el)) (render_css (map htok_c ts, tail))
   | PlSty el ts tail =>
     forallb htok_ok ts
+    && forallb (fun t => match ht_p1 t, ht_p2 t with [], [] => true | _, _ => false end) ts
     && obytes_eqb (attr (elem_at c el) "style") (Some (render_sty (map htok_s ts, tail)))
   end.
 Definition plants_consistent (c : hcase) : bool := forallb (plant_consistent c) (h_plants c).
